@@ -2,7 +2,9 @@
 
 use rs1090::decode::time::{gps_week_in_s, since_gps_week_to_since_today};
 use serde_json::{json, Value};
-use vcore::ev::{catch, h64, run_prop, Check, Ctx, Failure};
+use proptest::prelude::*;
+use rayon::prelude::*;
+use vcore::ev::{catch, fresh_process, h64, run_prop, Check, Ctx, Failure};
 
 const NS: u64 = 1_000_000_000;
 const DAY_NS: u64 = 86_400 * NS;
@@ -40,13 +42,168 @@ pub fn check_week(u: u64) -> Check {
     Ok(())
 }
 
+
+// ------------------------------------------------------------------------------------------------
+// Histories: both functions are pure by the property's wording, so what one call returns may not depend on the calls
+// before it -- of the same function or of the other one (the SeRo reader calls both for every reception).
+
+/// one call: (0 = time of week in ns, 1 = Unix time in s; argument)
+pub type Op = (u8, u64);
+
+fn judge_seq(ops: &[Op]) -> Check {
+    let rep = json!({"kind": "seq", "ops": ops.iter().map(|(k, a)| json!([if *k == 0 { "tow" } else { "week" }, a.to_string()])).collect::<Vec<_>>()});
+    for (i, (k, a)) in ops.iter().enumerate() {
+        let r = if *k == 0 { check_tow(*a) } else { check_week(*a) };
+        if let Err(e) = r {
+            return Err(Failure::new(format!("seq:{}", e.signature), format!("call {} of {}: {}", i + 1, ops.len(), e.detail), rep));
+        }
+    }
+    Ok(())
+}
+
+fn seq_of(v: &Value) -> Vec<Op> {
+    v["ops"].as_array().map(|a| a.iter().map(|o| (if o[0] == "tow" { 0u8 } else { 1u8 }, o[1].as_str().and_then(|s| s.parse::<u64>().ok()).or(o[1].as_u64()).unwrap_or(0))).collect()).unwrap_or_default()
+}
+
+/// symbolic step: absolute argument from a boundary-biased pool, or relative to the previous argument of that function
+#[derive(Clone, Debug)]
+enum Step {
+    Tow(u64),
+    Week(u64),
+    /// previous time of week +- 2^j of a unit (0 = ns, 1 = us, 2 = ms, 3 = s), or +- a day
+    TowRel(u8, u8, bool),
+    /// previous Unix time +- 2^j s, or +- k weeks
+    WeekRel(u8, bool),
+    WeekWeeks(u8, bool),
+}
+
+fn steps() -> impl Strategy<Value = Vec<Step>> {
+    let last: u64 = 4_102_444_800;
+    let boundary0 = GPS_EPOCH_UNIX - LEAP;
+    let nweeks = (last - boundary0) / WEEK_S;
+    let tow = prop_oneof![
+        // around each day boundary, whole seconds and any nanosecond
+        (0u64..=7, -120i64..=120, prop_oneof![Just(0u64), 0u64..NS]).prop_map(|(d, s, ns)| ((d * DAY_NS) as i64 + s * NS as i64).clamp(0, WEEK_NS as i64 - 1) as u64 / NS * NS + if d < 7 || s < 0 { ns } else { 0 }),
+        // the leap offset after each boundary
+        (0u64..=6, 16u64..=20, 0u64..NS).prop_map(|(d, s, ns)| d * DAY_NS + s * NS + ns),
+        // the last two minutes of the week, the first two
+        (1u64..=120 * NS).prop_map(|b| WEEK_NS - b),
+        (0u64..120 * NS),
+        0u64..WEEK_NS,
+    ]
+    .prop_map(|t| Step::Tow(t.min(WEEK_NS - 1)));
+    let week = prop_oneof![
+        // around a week boundary: the first weeks, 2017, now, the 2^31 s rollover, 2100, any
+        (prop_oneof![0u64..3, 1930u64..1935, 2380u64..2440, Just((2_147_483_648 - boundary0) / WEEK_S), Just((2_147_483_648 - boundary0) / WEEK_S + 1), Just(nweeks - 1), 0u64..nweeks], -120i64..=120).prop_map(move |(k, s)| ((boundary0 + k * WEEK_S) as i64 + s).max(GPS_EPOCH_UNIX as i64) as u64),
+        GPS_EPOCH_UNIX..last,
+    ]
+    .prop_map(Step::Week);
+    let step = prop_oneof![
+        3 => tow,
+        3 => week,
+        1 => (0u8..=40, 0u8..4, any::<bool>()).prop_map(|(j, u, up)| Step::TowRel(j, u, up)),
+        1 => (0u8..=31, any::<bool>()).prop_map(|(j, up)| Step::WeekRel(j, up)),
+        1 => (1u8..=60, any::<bool>()).prop_map(|(k, up)| Step::WeekWeeks(k, up)),
+    ];
+    proptest::collection::vec(step, 2..12)
+}
+
+fn resolve(steps: &[Step]) -> Vec<Op> {
+    let last: u64 = 4_102_444_800;
+    let (mut pt, mut pu) = (86_500 * NS, 1_790_467_170u64);
+    let mut ops = vec![];
+    for s in steps {
+        match s {
+            Step::Tow(t) => pt = *t,
+            Step::Week(u) => pu = *u,
+            Step::TowRel(j, unit, up) => {
+                let d = if *j == 40 { DAY_NS } else { (1u64 << (j % 40).min(39)).saturating_mul([1, 1_000, 1_000_000, NS][*unit as usize % 4]) };
+                let t = if *up { pt.checked_add(d) } else { pt.checked_sub(d) };
+                match t {
+                    Some(t) if t < WEEK_NS => pt = t,
+                    _ => continue,
+                }
+            }
+            Step::WeekRel(j, up) => {
+                let d = 1u64 << j;
+                let u = if *up { pu.checked_add(d) } else { pu.checked_sub(d) };
+                match u {
+                    Some(u) if (GPS_EPOCH_UNIX..last).contains(&u) => pu = u,
+                    _ => continue,
+                }
+            }
+            Step::WeekWeeks(k, up) => {
+                let d = *k as u64 * WEEK_S;
+                let u = if *up { pu.checked_add(d) } else { pu.checked_sub(d) };
+                match u {
+                    Some(u) if (GPS_EPOCH_UNIX..last).contains(&u) => pu = u,
+                    _ => continue,
+                }
+            }
+        }
+        ops.push(match s {
+            Step::Tow(_) | Step::TowRel(..) => (0u8, pt),
+            _ => (1u8, pu),
+        });
+    }
+    ops
+}
+
+fn seq_strata(ctx: &Ctx) {
+    // (a) in this process, one after the other on a worker thread: whatever the functions remember is carried from
+    //     call to call and from sequence to sequence
+    let n = ctx.tier.pick(64_000u32, 1_600_000u32);
+    (0..16u32).into_par_iter().for_each(|s| {
+        run_prop(ctx, &format!("seq-{s}"), n / 16, steps(), |st| {
+            let ops = resolve(st);
+            ctx.evals(ops.len() as u64);
+            if ops.iter().any(|(k, _)| *k == 0) && ops.iter().any(|(k, _)| *k == 1) {
+                ctx.class("call sequence mixing both functions");
+                ctx.nontrivial(h64(&("seq", &ops)));
+            } else {
+                ctx.class("call sequence of one function");
+            }
+            judge_seq(&ops)
+        });
+    });
+    // (b) each sequence in a process of its own: its first call is the first call the code ever sees
+    let n = ctx.tier.pick(320u32, 4_800u32);
+    (0..16u32).into_par_iter().for_each(|s| {
+        vcore::ev::run_prop_shrink(ctx, &format!("fresh-seq-{s}"), n / 16, 64, steps(), |st| {
+            let ops = resolve(st);
+            ctx.evals(ops.len() as u64);
+            ctx.class("call sequence in a fresh process");
+            ctx.nontrivial(h64(&("fresh-seq", &ops)));
+            let rep = json!({"kind": "seq", "ops": ops.iter().map(|(k, a)| json!([if *k == 0 { "tow" } else { "week" }, a.to_string()])).collect::<Vec<_>>()});
+            fresh_process("C18", &rep)
+        });
+    });
+    // (c) every Unix year 1980..2100 as the very first call of a process, then the present
+    let firsts: Vec<u64> = (0..=120u64).map(|y| GPS_EPOCH_UNIX + 86_400 + y * 31_557_600).filter(|u| *u < 4_102_444_800).collect();
+    let fails: Vec<Failure> = firsts
+        .par_iter()
+        .filter_map(|u| {
+            ctx.evals(4);
+            ctx.class("first call of a process: one per year 1980..2100, then the present");
+            let rep = json!({"kind": "seq", "ops": [["week", u.to_string()], ["week", "1790467170"], ["week", "1790467182"], ["tow", "100000000000"], ["week", u.to_string()]]});
+            fresh_process("C18", &rep).err()
+        })
+        .collect();
+    let mut seen = std::collections::BTreeSet::new();
+    for e in fails {
+        if seen.insert(e.signature.clone()) {
+            ctx.judge(Err(e));
+        }
+    }
+}
+
 fn nontrivial_tow(t: u64) -> bool {
     let r = t % DAY_NS;
     t < LEAP * NS || r < 60 * NS || r >= DAY_NS - 60 * NS || (r >= (LEAP - 1) * NS && r <= (LEAP + 1) * NS)
 }
 
 pub fn run(ctx: &Ctx) {
-    ctx.set_rule("t in [0, 604800e9) ns: every ns within +-W of each of the 8 day boundaries and of the 18 s leap offset after each, strided sweep of the first/last minute around each boundary, proptest-uniform elsewhere; Unix times 1980-01-06+18s .. 2100 uniform plus every week boundary +-20 s. Non-trivial = t within 60 s of a day boundary or below 18 s (or u within 20 s of a week boundary); distinct values counted.");
+    ctx.set_rule("t in [0, 604800e9) ns: every ns within +-W of each of the 8 day boundaries and of the 18 s leap offset after each, strided sweep of the first/last minute around each boundary, proptest-uniform elsewhere; Unix times 1980-01-06+18s .. 2100 uniform plus every week boundary +-20 s. Non-trivial = t within 60 s of a day boundary or below 18 s (or u within 20 s of a week boundary); distinct values counted. Histories: sequences of 2-11 calls of both functions (arguments from boundary-biased pools: day / week boundaries +- 2 min, the leap offset, the first weeks, 2017, the present, the 2^31 s rollover, 2100; or the previous argument +- 2^j ns/us/ms/s, +- a day, +- k weeks), each call judged by its exact oracle -- in this process one after the other, and each sequence again in a process of its own (its first call is the first call the code ever sees); one first call per year 1980..2100 followed by the present. Non-trivial sequence = one that calls both functions.");
     ctx.assume("leap-second offset is the constant 18 s the code documents (valid since 2017)");
     let w = ctx.tier.pick(2_000u64, 200_000u64);
     // dense: every ns around the day boundaries and the leap offsets
@@ -130,6 +287,8 @@ pub fn run(ctx: &Ctx) {
     });
     ctx.class_n("uniform unix times", cases as u64);
     ctx.sample(json!({"kind": "week", "u": 1_700_000_000u64, "week_start": gps_week_in_s(1_700_000_000)}));
+    seq_strata(ctx);
+    ctx.sample(json!({"kind": "seq", "ops": [["tow", "604775000000000"], ["week", "1790467182"], ["tow", "86500250000005"], ["tow", "119268250000010"]]}));
 }
 
 pub fn replay(ctx: &Ctx, v: &Value) {
@@ -137,6 +296,7 @@ pub fn replay(ctx: &Ctx, v: &Value) {
     let r = match v["kind"].as_str().unwrap_or("") {
         "tow" => check_tow(v["t"].as_u64().unwrap_or(0)),
         "week" => check_week(v["u"].as_u64().unwrap_or(GPS_EPOCH_UNIX)),
+        "seq" => judge_seq(&seq_of(v)),
         _ => Ok(()),
     };
     ctx.judge(r);
